@@ -174,6 +174,17 @@ macro_rules! define_hasher {
             }
         }
 
+        /// Verification hooks (only with `--cfg cryptocorrosion_verif`): access to the bit counter.
+        #[cfg(cryptocorrosion_verif)]
+        impl $name {
+            pub fn verif_set_counter(&mut self, t: ($word, $word)) {
+                self.t = t;
+            }
+            pub fn verif_counter(&self) -> ($word, $word) {
+                self.t
+            }
+        }
+
         impl core::fmt::Debug for $name {
             fn fmt(&self, f: &mut core::fmt::Formatter) -> Result<(), core::fmt::Error> {
                 f.debug_struct("(Blake)").finish()
